@@ -216,9 +216,15 @@ func (l *Backoff) incBackoff(key string) {
 // maximum count of requests per given interval.
 func (l *Backoff) hasHitRateLimit(subnetIPStr string, count uint, ivl time.Duration) (ok bool) {
 	var r *RequestCounter
-	rVal, ok := l.reqCounters.Get(subnetIPStr)
+	rVal, exp, ok := l.reqCounters.GetWithExpiration(subnetIPStr)
 	if ok {
 		r = rVal.(*RequestCounter)
+		if !exp.IsZero() && time.Until(exp) <= ivl {
+			// Do not let the counter of an active subnet expire while some of
+			// its requests are still within the interval, since that would
+			// reset the sliding window.  Idle counters still expire.
+			l.reqCounters.SetDefault(subnetIPStr, r)
+		}
 	} else {
 		r = NewRequestCounter(count, ivl)
 		l.reqCounters.SetDefault(subnetIPStr, r)
